@@ -584,6 +584,8 @@ def main(argv=None):
     except HarnessError as exc:
         print(f"HARNESS ERROR in {prop}: {exc}", file=sys.stderr)
         rc = 2
+        if a.replay:
+            return rc  # a replay never rewrites the evidence file
         try:
             if ctx.finish() == 1:
                 rc = 1  # violations already established stay reported
